@@ -281,8 +281,8 @@ def bijection_case(draw, tier="quick"):
 
 def subchecks():
     return [
-        SubCheck(name="spec", run_case=run_spec, strategy=lambda tier: gen.scenario(tier), examples={"quick": 1500, "thorough": 25000}, case_timeout=30.0),
-        SubCheck(name="rule", run_case=run_rule, strategy=lambda tier: ruleforms.form_case(tier), examples={"quick": 4000, "thorough": 60000}),
-        SubCheck(name="pack", run_case=run_pack, strategy=lambda tier: pack_case(tier), examples={"quick": 1500, "thorough": 20000}),
-        SubCheck(name="bijection", run_case=run_bijection, strategy=lambda tier: bijection_case(tier), examples={"quick": 500, "thorough": 8000}, case_timeout=30.0),
+        SubCheck(name="spec", run_case=run_spec, strategy=lambda tier: gen.scenario(tier), examples={"quick": 1500, "thorough": 80000}, case_timeout=30.0),
+        SubCheck(name="rule", run_case=run_rule, strategy=lambda tier: ruleforms.form_case(tier), examples={"quick": 4000, "thorough": 200000}),
+        SubCheck(name="pack", run_case=run_pack, strategy=lambda tier: pack_case(tier), examples={"quick": 1500, "thorough": 60000}),
+        SubCheck(name="bijection", run_case=run_bijection, strategy=lambda tier: bijection_case(tier), examples={"quick": 500, "thorough": 25000}, case_timeout=30.0),
     ]
